@@ -1206,9 +1206,8 @@ Qed.
 
 Lemma h_cb_inv dl s beh h : Inv dl s -> Inv dl (h_cb s beh h).
 Proof.
-  intros I. unfold h_cb. destruct (usable s h) eqn:U; [|exact I].
-  apply usable_valid in U. destruct U as [Hv Hc].
-  assert (Hd : h_closed (hget s h) = false) by (eapply HOK_not_closing; [apply (j_h _ _ I h Hv)|exact Hc]).
+  intros I. unfold h_cb. destruct (hvalid s h && negb (h_closed (hget s h))) eqn:U; [|exact I].
+  apply andb_prop in U. destruct U as [Hv Hd]. apply negb_true_iff in Hd.
   apply ccallback_step; auto; try discriminate.
   intros h' [Ha|(r & Hr & _)] _; [|discriminate]. simpl in Ha. inversion Ha; subst. exact Hd.
 Qed.
@@ -1397,7 +1396,7 @@ Proof.
       exists [EIn (OBatch h)]. split; [reflexivity|]. constructor; [intros h'; discriminate|constructor].
     + eapply appends_trans; [|apply run_cq_nocl].
       exists [EIn (OBatch h)]. split; [reflexivity|]. constructor; [intros h'; discriminate|constructor].
-  - unfold h_cb. destruct (usable s h); [|apply appends_refl]. apply ccallback_nocl. intros h'. discriminate.
+  - unfold h_cb. destruct (hvalid s h && negb (h_closed (hget s h))); [|apply appends_refl]. apply ccallback_nocl. intros h'. discriminate.
   - unfold fp_stat. match goal with |- appends _ _ (if ?c then _ else _) => destruct c end; [|apply appends_refl].
     destruct (stat_done _ _ _) as [l [[c [|]]|]];
       (exists [EIn (OFpStat h); ETouch h]; split; [reflexivity|];
@@ -2624,9 +2623,8 @@ Proof. unfold plain. splits; intros; try reflexivity; discriminate. Qed.
 
 Lemma h_cb_R s beh h : Inv [] s -> RInv [] s -> RInv [] (h_cb s beh h).
 Proof.
-  intros I R. unfold h_cb. destruct (usable s h) eqn:U; [|exact R].
-  apply usable_valid in U. destruct U as [Hv Hc].
-  assert (Hd : h_closed (hget s h) = false) by (eapply HOK_not_closing; [apply (j_h _ _ I h Hv)|exact Hc]).
+  intros I R. unfold h_cb. destruct (hvalid s h && negb (h_closed (hget s h))) eqn:U; [|exact R].
+  apply andb_prop in U. destruct U as [Hv Hd]. apply negb_true_iff in Hd.
   unfold ccallback. apply capis_R with (dl := []).
   - apply Inv_ext with (s := emit s (EHCb h)); auto. apply Inv_emit; auto; try discriminate.
     intros h' [Ha|(r & Hr & _)] _; [|discriminate]. simpl in Ha. inversion Ha; subst. exact Hd.
@@ -3351,9 +3349,8 @@ Proof. split; intros; discriminate. Qed.
 
 Lemma h_cb_S s beh h : Inv [] s -> RInv [] s -> SInv [] s -> SInv [] (h_cb s beh h).
 Proof.
-  intros I R SI. unfold h_cb. destruct (usable s h) eqn:U; [|exact SI].
-  apply usable_valid in U. destruct U as [Hv Hc].
-  assert (Hd : h_closed (hget s h) = false) by (eapply HOK_not_closing; [apply (j_h _ _ I h Hv)|exact Hc]).
+  intros I R SI. unfold h_cb. destruct (hvalid s h && negb (h_closed (hget s h))) eqn:U; [|exact SI].
+  apply andb_prop in U. destruct U as [Hv Hd]. apply negb_true_iff in Hd.
   apply body_S with (dl := []).
   - apply Inv_ext with (s := emit s (EHCb h)); auto. apply Inv_emit; auto; try discriminate.
     intros h' [Ha|(r & Hr & _)] _; [|discriminate]. simpl in Ha. inversion Ha; subst. exact Hd.
@@ -3516,4 +3513,680 @@ Proof.
   destruct (s_st _ _ (reachable_sinv os beh) (rev post) r st (rev pre) Ht) as [(st' & H & M)|(H & E)].
   - left. exists st'. split; [apply in_rev; exact H|exact M].
   - right. split; [|exact E]. intros (st' & H'). apply H. exists st'. apply in_rev in H'. exact H'.
+Qed.
+
+(* ================================================================== *)
+(* fs_poll: every context of a stopped or closing handle dies          *)
+(* ================================================================== *)
+Record TH (dl : list centry) (s : cstate) (h : nat) (x : hst) : Prop := {
+  t_nd : NoDup (map c_id (h_ctxs x));
+  t_lt : forall c, In c (h_ctxs x) -> (c_id c < nctx s)%nat;
+  t_ct : forall c, In c (h_ctxs x) -> c_timer c = 2%nat -> In (CT h (c_id c)) (dl ++ clq s);
+  t_st : forall c, In c (h_ctxs x) -> c_stat c = true \/ c_timer c = 1%nat \/ c_timer c = 2%nat;
+  t_tl : forall c, In c (tl (h_ctxs x)) -> c_stat c = true \/ c_timer c = 2%nat;
+  t_dead : (h_active x = false \/ h_closing x = true) ->
+           forall c, In c (h_ctxs x) -> c_stat c = true \/ c_timer c = 2%nat
+}.
+
+Definition TInv (dl : list centry) (s : cstate) : Prop :=
+  forall h, hvalid s h = true -> TH dl s h (hget s h).
+
+Lemma TInv_init : TInv [] cinit.
+Proof. intros h H. destruct (hvalid_cinit h H). Qed.
+
+Definition CF (x : hst) := (h_ctxs x, h_active x, h_closing x).
+Definition CFS (s s' : cstate) : Prop := map CF (hs s') = map CF (hs s).
+
+Lemma CFS_refl s : CFS s s. Proof. reflexivity. Qed.
+Lemma CFS_trans a b c : CFS a b -> CFS b c -> CFS a c. Proof. unfold CFS. congruence. Qed.
+Lemma CFS_hs s s' : hs s' = hs s -> CFS s s'. Proof. unfold CFS. intros ->. reflexivity. Qed.
+Lemma CFS_upd_hs s s' h f : hs s' = upd h f (hs s) -> (forall x, CF (f x) = CF x) -> CFS s s'.
+Proof. intros E H. unfold CFS. rewrite E. apply map_upd_inert. exact H. Qed.
+
+Lemma CFS_get s s' : CFS s s' -> forall h, hvalid s' h = hvalid s h /\ CF (hget s' h) = CF (hget s h).
+Proof.
+  unfold CFS. intros E h. split.
+  - unfold hvalid. rewrite <- (map_length CF (hs s')), <- (map_length CF (hs s)), E. reflexivity.
+  - unfold hget. rewrite <- !(map_nth CF). rewrite E. reflexivity.
+Qed.
+
+Lemma CF_eq x y : CF x = CF y -> h_ctxs x = h_ctxs y /\ h_active x = h_active y /\ h_closing x = h_closing y.
+Proof. unfold CF. intros E. inversion E. auto. Qed.
+
+Lemma TH_keep dl dl' s s' h x y :
+  TH dl s h x -> CF y = CF x -> (nctx s <= nctx s')%nat ->
+  (forall c, In (CT h c) (dl ++ clq s) -> In (CT h c) (dl' ++ clq s')) ->
+  TH dl' s' h y.
+Proof.
+  intros T E N M. apply CF_eq in E. destruct E as (E1 & E2 & E3). destruct T.
+  constructor; rewrite ?E1, ?E2, ?E3; auto.
+  intros c Hc. specialize (t_lt0 c Hc). lia.
+Qed.
+
+(* contexts, ACTIVE and CLOSING untouched; timer-close entries stay listed *)
+Lemma TInv_keep dl dl' s s' :
+  TInv dl s -> CFS s s' -> (nctx s <= nctx s')%nat ->
+  (forall h c, In (CT h c) (dl ++ clq s) -> In (CT h c) (dl' ++ clq s')) ->
+  TInv dl' s'.
+Proof.
+  intros T F N M h Hv. destruct (CFS_get _ _ F h) as (G1 & G2). rewrite G1 in Hv.
+  eapply TH_keep; eauto.
+Qed.
+
+Lemma TInv_newh dl s x : h_ctxs x = [] -> TInv dl s -> TInv dl (set_hs s (hs s ++ [x])).
+Proof.
+  intros E T h Hv. destruct (hvalid s h) eqn:V.
+  - rewrite hget_app_old by exact V. eapply TH_keep; [apply (T h V)|reflexivity|cbn; lia|auto].
+  - apply hvalid_lt in Hv. cbn [hs set_hs] in Hv. rewrite app_length in Hv. simpl in Hv.
+    unfold hvalid in V. apply Nat.ltb_ge in V. assert (h = length (hs s)) by lia. subst h.
+    rewrite hget_app_new. constructor; rewrite E; simpl; try (intros; contradiction). constructor.
+Qed.
+
+(* rewriting the fs_poll fields of one handle *)
+Lemma TInv_upd dl dl' s s' h y :
+  (forall h', h' <> h -> hvalid s h' = true -> TH dl s h' (hget s h')) -> hvalid s h = true ->
+  length (hs s') = length (hs s) -> (nctx s <= nctx s')%nat ->
+  (forall h', h' <> h -> hget s' h' = hget s h') -> hget s' h = y ->
+  (forall h' c, In (CT h' c) (dl ++ clq s) -> In (CT h' c) (dl' ++ clq s')) ->
+  TH dl' s' h y -> TInv dl' s'.
+Proof.
+  intros T Hv L N O E M Y h' Hv'.
+  assert (Hv0 : hvalid s h' = true) by (unfold hvalid in *; rewrite <- L; exact Hv').
+  destruct (Nat.eq_dec h' h) as [->|Hne].
+  - rewrite E. exact Y.
+  - rewrite O by exact Hne. eapply TH_keep; [apply (T h' Hne Hv0)|reflexivity|exact N|auto].
+Qed.
+
+Lemma in_app_cons_ct h c (e : centry) dl q : In (CT h c) (dl ++ q) -> In (CT h c) (dl ++ e :: q).
+Proof. intros H. apply in_app_cons. right. exact H. Qed.
+
+(* TH without the clause for closing handles *)
+Record THw (dl : list centry) (s : cstate) (h : nat) (x : hst) : Prop := {
+  w_nd : NoDup (map c_id (h_ctxs x));
+  w_lt : forall c, In c (h_ctxs x) -> (c_id c < nctx s)%nat;
+  w_ct : forall c, In c (h_ctxs x) -> c_timer c = 2%nat -> In (CT h (c_id c)) (dl ++ clq s);
+  w_st : forall c, In c (h_ctxs x) -> c_stat c = true \/ c_timer c = 1%nat \/ c_timer c = 2%nat;
+  w_tl : forall c, In c (tl (h_ctxs x)) -> c_stat c = true \/ c_timer c = 2%nat;
+  w_dead : h_active x = false -> forall c, In c (h_ctxs x) -> c_stat c = true \/ c_timer c = 2%nat
+}.
+
+Lemma TH_THw dl s h x : TH dl s h x -> THw dl s h x.
+Proof. intros []. constructor; auto. Qed.
+
+(* uv_fs_poll_stop *)
+Lemma fp_stop_Tw dl s h :
+  (forall h', h' <> h -> hvalid s h' = true -> TH dl s h' (hget s h')) ->
+  hvalid s h = true -> THw dl s h (hget s h) -> TInv dl (fp_stop s h).
+Proof.
+  intros T Hv X. unfold fp_stop.
+  destruct (h_active (hget s h)) eqn:Ea.
+  2:{ intros h' Hv'. destruct (Nat.eq_dec h' h) as [->|Hne]; [|auto].
+      destruct X. constructor; auto. }
+  destruct (h_ctxs (hget s h)) as [|c rest] eqn:Ec.
+  - (* no context *)
+    apply TInv_upd with (dl := dl) (s := s) (h := h) (y := w_active false (hget s h)); auto.
+    + apply len_upd_h.
+    + intros h' Hne. apply hget_upd_other. auto.
+    + apply hget_upd_same. exact Hv.
+    + destruct X. constructor; cbn [h_ctxs h_active h_closing w_active]; rewrite ?Ec; simpl; auto;
+        try (intros; contradiction). constructor.
+  - destruct (Nat.eqb (c_timer c) 1) eqn:Et.
+    + apply Nat.eqb_eq in Et.
+      set (c' := mkC (c_id c) (c_stat c) 2).
+      set (s2 := upd_h (push_clq (upd_h s h (w_ctxs (c' :: rest))) (CT h (c_id c))) h (w_active false)).
+      apply TInv_upd with (dl := dl) (s := s) (h := h) (y := w_active false (w_ctxs (c' :: rest) (hget s h))); auto.
+      * unfold s2. rewrite len_upd_h. cbn [push_clq set_clq hs]. apply len_upd_h.
+      * intros h' Hne. unfold s2. rewrite hget_upd_other by auto. rewrite hget_push, hget_upd_other by auto. reflexivity.
+      * unfold s2. rewrite hget_upd_same by (rewrite hvalid_push, hvalid_upd; exact Hv).
+        rewrite hget_push, hget_upd_same by exact Hv. reflexivity.
+      * intros h' c0 H. unfold s2. cbn. apply in_app_cons_ct. exact H.
+      * destruct X. rewrite Ec in *. constructor; cbn [h_ctxs h_active h_closing w_active w_ctxs map c_id c' tl].
+        -- exact w_nd0.
+        -- intros c0 [<-|H]; [apply (w_lt0 c); left; reflexivity|apply w_lt0; right; exact H].
+        -- intros c0 [<-|H] H2.
+           ++ cbn. apply in_app_cons. left. reflexivity.
+           ++ cbn. apply in_app_cons_ct. apply w_ct0; [right; exact H|exact H2].
+        -- intros c0 [<-|H]; [right; right; reflexivity|apply w_st0; right; exact H].
+        -- exact w_tl0.
+        -- intros _ c0 [<-|H]; [right; reflexivity|apply w_tl0; exact H].
+    + apply TInv_upd with (dl := dl) (s := s) (h := h) (y := w_active false (hget s h)); auto.
+      * apply len_upd_h.
+      * intros h' Hne. apply hget_upd_other. auto.
+      * apply hget_upd_same. exact Hv.
+      * destruct X. rewrite Ec in *. constructor; cbn [h_ctxs h_active h_closing w_active]; rewrite ?Ec; auto.
+        intros _ c0 [<-|H]; [|apply w_tl0; exact H].
+        destruct (w_st0 c ltac:(left; reflexivity)) as [H|[H|H]]; auto.
+        apply Nat.eqb_neq in Et. contradiction.
+Qed.
+
+Lemma fp_stop_T dl s h : TInv dl s -> hvalid s h = true -> TInv dl (fp_stop s h).
+Proof. intros T Hv. apply fp_stop_Tw; auto. apply TH_THw. apply T. exact Hv. Qed.
+
+Lemma fp_stop_dead s h :
+  hvalid s h = true -> h_active (hget (fp_stop s h) h) = false /\
+  h_closing (hget (fp_stop s h) h) = h_closing (hget s h).
+Proof.
+  intros Hv. unfold fp_stop. destruct (h_active (hget s h)) eqn:Ea; [|auto].
+  destruct (h_ctxs (hget s h)) as [|c rest].
+  - rewrite hget_upd_same by exact Hv. auto.
+  - destruct (Nat.eqb (c_timer c) 1).
+    + rewrite hget_upd_same by (rewrite hvalid_push, hvalid_upd; exact Hv).
+      rewrite hget_push, hget_upd_same by exact Hv. auto.
+    + rewrite hget_upd_same by exact Hv. auto.
+Qed.
+
+Lemma TInv_push dl s e : TInv dl s -> TInv dl (push_clq s e).
+Proof.
+  intros T. apply TInv_keep with (dl := dl) (s := s); auto.
+  - apply CFS_hs. reflexivity.
+  - intros h c H. cbn. apply in_app_cons. right. exact H.
+Qed.
+
+Lemma TInv_emit dl s e : TInv dl s -> TInv dl (emit s e).
+Proof. intros T. apply TInv_keep with (dl := dl) (s := s); auto. apply CFS_hs. reflexivity. Qed.
+
+Lemma c_close_T dl s h :
+  Inv dl s -> TInv dl s -> hvalid s h = true -> TInv dl (c_close s h).
+Proof.
+  intros I T Hv. unfold c_close. pose proof (T h Hv) as X. pose proof (j_h _ _ I h Hv) as K.
+  set (g := fun x => w_ledger [] (w_closing true x)).
+  set (s1 := upd_h s h g).
+  assert (G1 : hget s1 h = g (hget s h)) by (apply hget_upd_same; exact Hv).
+  assert (O1 : forall h', h' <> h -> hget s1 h' = hget s h') by (intros h' Hne; apply hget_upd_other; auto).
+  assert (V1 : forall h', hvalid s1 h' = hvalid s h') by (intros h'; apply hvalid_upd).
+  assert (OTH : forall h', h' <> h -> hvalid s1 h' = true -> TH dl s1 h' (hget s1 h')).
+  { intros h' Hne Hv'. rewrite V1 in Hv'. rewrite O1 by exact Hne.
+    eapply TH_keep; [apply (T h' Hv')|reflexivity|cbn; lia|auto]. }
+  assert (SIMPLE : h_ctxs (hget s h) = [] -> TInv dl (push_clq s1 (CH h))).
+  { intros Ec. apply TInv_push. intros h' Hv'. destruct (Nat.eq_dec h' h) as [->|Hne]; [|auto].
+    rewrite G1. constructor; unfold g; cbn [h_ctxs w_ledger w_closing]; rewrite Ec; simpl;
+      try (intros; contradiction). constructor. }
+  destruct (h_ty (hget s h)) eqn:Ty;
+    try (apply SIMPLE; destruct (h_ctxs (hget s h)) eqn:Ec; auto;
+         assert (Ht : h_ty (hget s h) = TFsPoll) by (apply (k_ty _ _ _ _ K); rewrite Ec; discriminate);
+         congruence).
+  assert (T2 : TInv dl (fp_stop s1 h)).
+  { apply fp_stop_Tw; auto; [rewrite V1; exact Hv|].
+    rewrite G1. destruct X. constructor; unfold g; cbn [h_ctxs h_active w_ledger w_closing]; auto. }
+  match goal with |- TInv dl (match ?m with [] => _ | _ => _ end) => destruct m end;
+    [apply TInv_push; exact T2|exact T2].
+Qed.
+
+(* uv_fs_poll_start on an inactive handle: a new context becomes the head *)
+Lemma fp_start_T dl s h :
+  TInv dl s -> hvalid s h = true -> h_closing (hget s h) = false -> h_active (hget s h) = false ->
+  TInv dl (set_nctx (upd_h s h (fun x => w_active true (w_ctxs (mkC (nctx s) true 0 :: h_ctxs x) x)))
+                    (S (nctx s))).
+Proof.
+  intros T Hv Hc Ha. pose proof (T h Hv) as X.
+  set (f := fun x => w_active true (w_ctxs (mkC (nctx s) true 0 :: h_ctxs x) x)).
+  apply TInv_upd with (dl := dl) (s := s) (h := h) (y := f (hget s h)); auto.
+  - cbn [set_nctx hs]. apply len_upd_h.
+  - cbn. lia.
+  - intros h' Hne. change (hget (set_nctx ?a ?n) h') with (hget a h'). apply hget_upd_other. auto.
+  - change (hget (set_nctx ?a ?n) h) with (hget a h). apply hget_upd_same. exact Hv.
+  - destruct X. constructor; unfold f; cbn [h_ctxs h_active h_closing w_active w_ctxs map tl c_id nctx set_nctx].
+    + constructor; [|exact t_nd0]. intros H. apply in_map_iff in H. destruct H as (c & E & Hin).
+      specialize (t_lt0 c Hin). cbn in E. lia.
+    + intros c [<-|H]; [cbn; lia|specialize (t_lt0 c H); lia].
+    + intros c [<-|H] H2; [cbn in H2; discriminate|]. cbn. apply t_ct0; auto.
+    + intros c [<-|H]; [left; reflexivity|apply t_st0; exact H].
+    + intros c H. apply t_dead0; auto.
+    + intros [H|H]; [discriminate|]. cbn in H. congruence.
+Qed.
+
+(* poll_cb of the oldest context with a stat in flight: the chain splits
+   around it *)
+Definition pre_nil (pre : list ctx) : bool := match pre with [] => true | _ => false end.
+
+Lemma stat_done_split b l : forall hd,
+  (exists pre c post, l = pre ++ c :: post /\ c_stat c = true /\ existsb c_stat post = false /\
+     stat_done b hd l =
+       (pre ++ mkC (c_id c) false (if b || negb (hd && pre_nil pre) then 2 else 1) :: post,
+        Some (c_id c, b || negb (hd && pre_nil pre)))) \/
+  (existsb c_stat l = false /\ stat_done b hd l = (l, None)).
+Proof.
+  induction l as [|c l IH]; intros hd; simpl.
+  - right. auto.
+  - destruct (IH false) as [(pre & c0 & post & E & S0 & NP & SD)|(NS & SD)]; rewrite SD.
+    + left. exists (c :: pre), c0, post. subst l. simpl. rewrite andb_false_r in *. simpl in *.
+      rewrite orb_true_r in *. splits; auto.
+    + destruct (c_stat c) eqn:Es.
+      * left. exists [], c, l. simpl. rewrite andb_true_r. splits; auto.
+        destruct (b || negb hd); reflexivity.
+      * right. simpl. auto.
+Qed.
+
+Lemma fp_stat_T dl s h : TInv dl s -> TInv dl (fp_stat s h).
+Proof.
+  intros T. unfold fp_stat.
+  match goal with |- TInv _ (if ?c then _ else _) => destruct c eqn:U end; [|exact T].
+  apply andb_prop in U. destruct U as [U Hs]. apply andb_prop in U. destruct U as [Hv _].
+  pose proof (T h Hv) as X.
+  set (b := negb (h_active (hget s h)) || h_closing (hget s h)).
+  set (s0 := emit (emit s (ETouch h)) (EIn (OFpStat h))).
+  assert (T0 : TInv dl s0) by (apply TInv_emit; apply TInv_emit; exact T).
+  destruct (stat_done_split b (h_ctxs (hget s h)) true) as [(pre & c & post & E & S0 & NP & SD)|(NS & SD)].
+  2:{ unfold has_stat in Hs. rewrite NS in Hs. discriminate. }
+  fold b. rewrite SD.
+  set (cl := b || negb (true && pre_nil pre)).
+  set (c' := mkC (c_id c) false (if cl then 2 else 1)).
+  set (l' := pre ++ c' :: post).
+  assert (IDS : map c_id l' = map c_id (h_ctxs (hget s h))).
+  { unfold l'. rewrite E, !map_app. reflexivity. }
+  assert (INL : forall x, In x l' -> x = c' \/ In x (h_ctxs (hget s h))).
+  { intros x H. unfold l' in H. rewrite E. apply in_app_or in H. destruct H as [H|[H|H]]; auto;
+      right; apply in_or_app; [left|right; right]; exact H. }
+  assert (TLL : forall x, In x (tl l') -> (x = c' /\ pre <> []) \/ In x (tl (h_ctxs (hget s h)))).
+  { intros x H. unfold l' in H. rewrite E. destruct pre as [|p pre]; simpl in *; auto.
+    apply in_app_or in H. destruct H as [H|[H|H]].
+    - right. apply in_or_app. auto.
+    - left. split; [auto|discriminate].
+    - right. apply in_or_app. right. right. exact H. }
+  assert (CIN : In c (h_ctxs (hget s h))) by (rewrite E; apply in_or_app; right; left; reflexivity).
+  (* the handle's new record satisfies TH once the timer-close entry (if any) is listed *)
+  assert (NEW : forall s', nctx s' = nctx s ->
+                  (cl = true -> In (CT h (c_id c)) (dl ++ clq s')) ->
+                  (forall c0, In (CT h c0) (dl ++ clq s) -> In (CT h c0) (dl ++ clq s')) ->
+                  TH dl s' h (w_ctxs l' (hget s h))).
+  { intros s' N1 N2 N3. destruct X. constructor; cbn [h_ctxs h_active h_closing w_ctxs].
+    - rewrite IDS. exact t_nd0.
+    - intros x Hx. rewrite N1. destruct (INL x Hx) as [->|H]; [apply (t_lt0 c CIN)|auto].
+    - intros x Hx Ht. destruct (INL x Hx) as [->|H].
+      + cbn in Ht. cbn. apply N2. destruct cl; [reflexivity|discriminate].
+      + apply N3. apply t_ct0; auto.
+    - intros x Hx. destruct (INL x Hx) as [->|H]; [|auto]. cbn. destruct cl; auto.
+    - intros x Hx. destruct (TLL x Hx) as [(-> & Hp)|H]; [|auto].
+      right. cbn. unfold cl. destruct pre; [contradiction|]. simpl. rewrite orb_true_r. reflexivity.
+    - intros D x Hx. destruct (INL x Hx) as [->|H]; [|auto].
+      right. cbn. unfold cl, b. destruct D as [D|D]; rewrite D; simpl; rewrite ?orb_true_r; reflexivity. }
+  assert (G : hget (upd_h s0 h (w_ctxs l')) h = w_ctxs l' (hget s h)).
+  { rewrite hget_upd_same by exact Hv. reflexivity. }
+  destruct cl eqn:Ecl.
+  - (* the timer is closed *)
+    apply TInv_upd with (dl := dl) (s := s0) (h := h) (y := w_ctxs l' (hget s h)); auto.
+    + cbn [push_clq set_clq hs]. apply len_upd_h.
+    + intros h' Hne. rewrite hget_push. apply hget_upd_other. auto.
+    + intros h' c0 H. cbn. apply in_app_cons_ct. exact H.
+    + apply NEW; auto.
+      * intros _. cbn. apply in_app_cons. left. reflexivity.
+      * intros c0 H. cbn. apply in_app_cons_ct. exact H.
+  - apply TInv_upd with (dl := dl) (s := s0) (h := h) (y := w_ctxs l' (hget s h)); auto;
+      try (apply len_upd_h); try (intros h' Hne; apply hget_upd_other; auto; fail).
+    apply NEW; auto. intros H. discriminate.
+Qed.
+
+Lemma NoDup_map_filter {A B} (g : A -> B) (p : A -> bool) l : NoDup (map g l) -> NoDup (map g (filter p l)).
+Proof.
+  induction l as [|x l IH]; simpl; intros N; [constructor|]. inversion N; subst.
+  destruct (p x); simpl; auto. constructor; auto.
+  intros H. apply H1. apply in_map_iff in H. destruct H as (y & E & Hy). apply filter_In in Hy.
+  apply in_map_iff. exists y. tauto.
+Qed.
+
+(* a sub-chain without context c, once the entry CT h c has been taken off the batch *)
+Lemma TH_subchain h c rest s s' x l' :
+  TH (CT h c :: rest) s h x -> nctx s' = nctx s ->
+  (forall e, In e (clq s) -> In e (clq s')) ->
+  (forall y, In y l' -> In y (h_ctxs x) /\ c_id y <> c) ->
+  (forall y, In y (tl l') -> In y (tl (h_ctxs x))) ->
+  NoDup (map c_id l') ->
+  TH rest s' h (w_ctxs l' x).
+Proof.
+  intros T N M S TL ND. destruct T. constructor; cbn [h_ctxs h_active h_closing w_ctxs]; auto.
+  - intros y Hy. rewrite N. apply t_lt0. apply (S y Hy).
+  - intros y Hy Ht. destruct (S y Hy) as (S1 & S2). specialize (t_ct0 y S1 Ht).
+    simpl in t_ct0. destruct t_ct0 as [E|H]; [inversion E; congruence|].
+    apply in_app_or in H. apply in_or_app. destruct H; auto.
+  - intros y Hy. apply t_st0. apply (S y Hy).
+  - intros D y Hy. apply t_dead0; auto. apply (S y Hy).
+Qed.
+
+Lemma TH_other h c rest s s' h' x :
+  h' <> h -> TH (CT h c :: rest) s h' x -> nctx s' = nctx s ->
+  (forall e, In e (clq s) -> In e (clq s')) -> TH rest s' h' x.
+Proof.
+  intros Hne T N M. eapply TH_keep; [exact T|reflexivity|lia|].
+  intros c0 H. simpl in H. destruct H as [E|H]; [inversion E; congruence|].
+  apply in_app_or in H. apply in_or_app. destruct H; auto.
+Qed.
+
+(* timer_close_cb: the context leaves the chain *)
+Lemma fp_timer_closed_T h c rest s :
+  TInv (CT h c :: rest) s -> hvalid s h = true -> TInv rest (fp_timer_closed s h c).
+Proof.
+  intros T Hv. pose proof (T h Hv) as X. unfold fp_timer_closed.
+  destruct (h_ctxs (hget s h)) as [|c0 rest0] eqn:Ec.
+  - (* nothing to remove *)
+    intros h' Hv'. destruct (Nat.eq_dec h' h) as [->|Hne].
+    + replace (hget s h) with (w_ctxs [] (hget s h)) by (destruct (hget s h); simpl in Ec; subst; reflexivity).
+      apply TH_subchain with (c := c) (s := s); auto; try (intros y []). constructor.
+    + apply TH_other with (h := h) (c := c) (s := s); auto.
+  - assert (NDc : NoDup (c_id c0 :: map c_id rest0)) by (destruct X as [N _ _ _ _ _]; rewrite Ec in N; exact N).
+    inversion NDc as [|a b NI ND0]; subst.
+    destruct (Nat.eqb (c_id c0) c) eqn:Eid.
+    + apply Nat.eqb_eq in Eid. subst c.
+      assert (SUB : forall y, In y rest0 -> In y (h_ctxs (hget s h)) /\ c_id y <> c_id c0).
+      { intros y Hy. rewrite Ec. split; [right; exact Hy|]. intros E. apply NI. rewrite <- E. apply in_map. exact Hy. }
+      assert (TLS : forall y, In y (tl rest0) -> In y (tl (h_ctxs (hget s h)))).
+      { intros y Hy. rewrite Ec. simpl. destruct rest0; [destruct Hy|right; exact Hy]. }
+      assert (BASE : forall s', hs s' = upd h (w_ctxs rest0) (hs s) -> nctx s' = nctx s ->
+                       (forall e, In e (clq s) -> In e (clq s')) -> TInv rest s').
+      { intros s' Eh En Ecl h' Hv'.
+        assert (Hv0 : hvalid s h' = true) by (unfold hvalid in *; rewrite Eh, upd_length in Hv'; exact Hv').
+        assert (G : hget s' h' = if Nat.eqb h h' && hvalid s h then w_ctxs rest0 (hget s h) else hget s h').
+        { unfold hget, hvalid. rewrite Eh. apply nth_upd. }
+        rewrite G. destruct (Nat.eq_dec h h') as [<-|Hne].
+        - rewrite Nat.eqb_refl, Hv. simpl. apply TH_subchain with (c := c_id c0) (s := s); auto.
+        - apply Nat.eqb_neq in Hne. rewrite Hne. simpl. apply Nat.eqb_neq in Hne.
+          apply TH_other with (h := h) (c := c_id c0) (s := s); auto. }
+      destruct rest0 as [|c1 rest1]; [destruct (h_closing (hget s h))|]; apply BASE; auto;
+        try reflexivity; cbn; auto.
+    + apply Nat.eqb_neq in Eid.
+      set (l' := c0 :: filter (fun k => negb (Nat.eqb (c_id k) c)) rest0).
+      intros h' Hv'. rewrite hvalid_upd in Hv'. destruct (Nat.eq_dec h h') as [<-|Hne].
+      * rewrite hget_upd_same by exact Hv. apply TH_subchain with (c := c) (s := s); auto.
+        -- intros y [<-|Hy]; [rewrite Ec; split; [left; reflexivity|exact Eid]|].
+           apply filter_In in Hy. destruct Hy as (Hy & Hb). rewrite Ec. split; [right; exact Hy|].
+           apply negb_true_iff in Hb. apply Nat.eqb_neq in Hb. exact Hb.
+        -- intros y Hy. rewrite Ec. simpl in *. apply filter_In in Hy. apply Hy.
+        -- unfold l'. simpl. constructor.
+           ++ intros H. apply NI. apply in_map_iff in H. destruct H as (y & E & Hy). apply filter_In in Hy.
+              apply in_map_iff. exists y. tauto.
+           ++ apply NoDup_map_filter. exact ND0.
+      * rewrite hget_upd_other by exact Hne. apply TH_other with (h := h) (c := c) (s := s); auto.
+Qed.
+
+Definition fp_op (o : cop) : bool :=
+  match o with OInit _ | OFpStart _ | OFpStop _ | OClose _ => true | _ => false end.
+
+Lemma capi_CFS s o : fp_op o = false ->
+  CFS s (capi s o) /\ clq (capi s o) = clq s /\ nctx (capi s o) = nctx s.
+Proof.
+  destruct o; cbn [fp_op capi]; intros Q; try discriminate; try (splits; reflexivity);
+    repeat match goal with
+    | |- context [if ?c then _ else _] => destruct c
+    | |- context [match ?c with _ => _ end] => destruct c
+    end; splits; try reflexivity;
+    try (eapply CFS_upd_hs; [reflexivity|reflexivity]).
+Qed.
+
+Lemma capi_T dl s o : Inv dl s -> TInv dl s -> TInv dl (capi s o).
+Proof.
+  intros I T. destruct (fp_op o) eqn:FO.
+  2:{ destruct (capi_CFS s o FO) as (F & C & N).
+      apply TInv_keep with (dl := dl) (s := s); auto; [lia|]. intros h c. rewrite C. auto. }
+  destruct o; try discriminate; cbn [capi].
+  - apply TInv_emit. apply TInv_newh; auto.
+  - destruct (usable s h && htype_eqb (h_ty (hget s h)) TFsPoll) eqn:U; [|exact T].
+    apply andb_prop in U. destruct U as [U _]. apply usable_valid in U. destruct U as [Hv Hc].
+    destruct (h_active (hget s h)) eqn:Ea; [apply TInv_emit; exact T|].
+    apply TInv_emit.
+    change (TInv dl (set_nctx (upd_h s h (fun x => w_active true (w_ctxs (mkC (nctx s) true 0 :: h_ctxs x) x)))
+                              (Datatypes.S (nctx s)))).
+    apply fp_start_T; auto.
+  - destruct (usable s h && htype_eqb (h_ty (hget s h)) TFsPoll) eqn:U; [|exact T].
+    apply andb_prop in U. destruct U as [U _]. apply usable_valid in U. destruct U as [Hv Hc].
+    apply TInv_emit. apply fp_stop_T; auto.
+  - destruct (usable s h) eqn:U; [|exact T].
+    apply usable_valid in U. destruct U as [Hv Hc].
+    assert (Hd : h_closed (hget s h) = false) by (eapply HOK_not_closing; [apply (j_h _ _ I h Hv)|exact Hc]).
+    apply c_close_T; auto.
+    + apply Inv_emit_op with (h := h); auto.
+    + apply TInv_emit. exact T.
+Qed.
+
+Lemma capis_T dl os : forall s, Inv dl s -> TInv dl s -> TInv dl (capis s os).
+Proof.
+  induction os as [|o os IH]; intros s I T; cbn [capis]; [exact T|].
+  apply IH; [apply (capi_step dl s o I)|apply capi_T; auto].
+Qed.
+
+Lemma TInv_ext dl s s' :
+  TInv dl s -> hs s' = hs s -> clq s' = clq s -> nctx s' = nctx s -> TInv dl s'.
+Proof.
+  intros T A B C. apply TInv_keep with (dl := dl) (s := s); auto.
+  - apply CFS_hs. exact A. - lia. - intros h c. rewrite B. auto.
+Qed.
+
+(* a callback: event, then the body; needs the invariant of the state in which the body starts *)
+Lemma ccallback_T dl s beh e :
+  Inv dl (set_ncb (emit s e) (Datatypes.S (ncb s))) -> TInv dl s -> TInv dl (ccallback s beh e).
+Proof.
+  intros I T. unfold ccallback. apply capis_T; auto.
+  apply TInv_ext with (s := s); auto.
+Qed.
+
+(* rewriting request fields of one handle *)
+Lemma TInv_req_upd dl s h f : (forall x, CF (f x) = CF x) -> TInv dl s -> TInv dl (upd_h s h f).
+Proof.
+  intros H T. apply TInv_keep with (dl := dl) (s := s); auto.
+  eapply CFS_upd_hs; [reflexivity|exact H].
+Qed.
+
+Lemma run_cq_T dl beh h l : forall s,
+  Inv dl s -> TInv dl s -> hvalid s h = true -> h_closed (hget s h) = false ->
+  (forall r st, In (r, st) l -> lookup r (owner s) = Some h) ->
+  TInv dl (run_cq l h s beh).
+Proof.
+  induction l as [|[r st] l IH]; intros s I T Hv Hc Ho; cbn [run_cq]; [exact T|].
+  set (ev := EReqCb r (cbstatus (h_ty (hget s h)) st) (h_closing (hget s h))).
+  assert (L : lookup r (owner s) = Some h) by (apply (Ho r st); left; reflexivity).
+  assert (S1 : Step dl s (ccallback s beh ev)) by (apply reqcb_step with (h := h); auto).
+  destruct S1 as [I1 [F1 F2]]. destruct (F1 h Hv) as (V1 & C1 & _).
+  apply IH; auto.
+  - apply ccallback_T; auto. apply Inv_reqcb_pre with (h := h); auto.
+  - congruence.
+  - intros r' st' H. apply F2. apply (Ho r' st'). right. exact H.
+Qed.
+
+Lemma flush_and_run_T dl s beh h :
+  Inv dl s -> TInv dl s -> hvalid s h = true -> h_closed (hget s h) = false ->
+  TInv dl (flush_and_run s beh h).
+Proof.
+  intros I T Hv Hd. unfold flush_and_run. pose proof (j_h _ _ I h Hv) as K.
+  set (f := fun x => w_cq [] (w_wq [] x)).
+  assert (I1 : Inv dl (upd_h s h f)).
+  { apply Inv_upd; auto. eapply HOK_frame; eauto.
+    - intros r. rewrite !in_qreqs. unfold f. cbn. tauto.
+    - apply (k_led _ _ _ _ K). }
+  apply run_cq_T; auto.
+  - apply TInv_req_upd; auto.
+  - rewrite hvalid_upd. exact Hv.
+  - rewrite hget_upd_same by exact Hv. exact Hd.
+  - intros r st H. change (owner (upd_h s h f)) with (owner s).
+    apply (k_own _ _ _ _ K). apply in_qreqs. apply in_app_or in H. destruct H as [H|H].
+    + right. right. left. apply in_map_iff. exists (r, st). auto.
+    + right. left. eapply in_cancelled; eauto.
+Qed.
+
+Lemma drop_req_T dl s beh h f r st cl :
+  Inv dl s -> TInv dl s -> hvalid s h = true -> h_closed (hget s h) = false ->
+  In r (qreqs (hget s h)) -> (forall x, CF (f x) = CF x) ->
+  h_closed (f (hget s h)) = h_closed (hget s h) -> h_ty (f (hget s h)) = h_ty (hget s h) ->
+  h_ledger (f (hget s h)) = h_ledger (hget s h) ->
+  (forall r', In r' (qreqs (f (hget s h))) -> In r' (qreqs (hget s h))) ->
+  TInv dl (ccallback (upd_h s h f) beh (EReqCb r st cl)).
+Proof.
+  intros I T Hv Hd Hr HF B Ty L Q. pose proof (j_h _ _ I h Hv) as K.
+  pose proof (CF_eq _ _ (HF (hget s h))) as (E1 & E2 & E3).
+  assert (I1 : Inv dl (upd_h s h f)).
+  { apply Inv_upd; auto. eapply HOK_frame; eauto. rewrite E3, L. apply (k_led _ _ _ _ K). }
+  apply ccallback_T.
+  - apply Inv_reqcb_pre with (h := h); auto.
+    + apply (k_own _ _ _ _ K). exact Hr.
+    + rewrite hget_upd_same by exact Hv. congruence.
+  - apply TInv_req_upd; auto.
+Qed.
+
+Lemma cancel_connect_T dl s beh h :
+  Inv dl s -> TInv dl s -> hvalid s h = true -> h_closed (hget s h) = false ->
+  TInv dl (cancel_connect s beh h).
+Proof.
+  intros I T Hv Hd. unfold cancel_connect.
+  destruct (h_conn (hget s h)) as [r|] eqn:Ec; [|exact T].
+  apply drop_req_T; auto.
+  - apply in_qreqs. auto.
+  - intros r'. rewrite !in_qreqs. cbn. intros [H|H]; [discriminate|auto].
+Qed.
+
+Lemma drain_closing_T dl s beh h :
+  Inv dl s -> TInv dl s -> hvalid s h = true -> h_closed (hget s h) = false ->
+  TInv dl (drain_closing s beh h).
+Proof.
+  intros I T Hv Hd. unfold drain_closing.
+  destruct (h_shut (hget s h)) as [r|] eqn:Ec; [|exact T].
+  apply drop_req_T; auto.
+  - apply in_qreqs. auto.
+  - intros r'. rewrite !in_qreqs. cbn. intros [H|[H|[H|H]]]; auto. discriminate.
+Qed.
+
+Lemma TInv_pop_ch h rest s : TInv (CH h :: rest) s -> TInv rest s.
+Proof.
+  intros T h' Hv. eapply TH_keep; [apply (T h' Hv)|reflexivity|lia|].
+  intros c H. simpl in H. destruct H as [E|H]; [discriminate|exact H].
+Qed.
+
+Lemma deliver_close_T h rest s beh :
+  Inv (CH h :: rest) s -> TInv (CH h :: rest) s -> TInv rest (deliver_close s beh h).
+Proof.
+  intros I T. destruct (head_facts _ _ _ I) as (Hv & Hcl & Hd & Hx & Hn & Hnd).
+  unfold deliver_close. rewrite (k_led _ _ _ _ (j_h _ _ I h Hv) Hcl). cbn [emit_leaks].
+  set (s1 := upd_h s h (w_closed true)).
+  apply ccallback_T.
+  - apply Inv_ext with (s := emit s1 (ECloseCb h)); auto. apply Inv_close. exact I.
+  - apply TInv_pop_ch with (h := h). unfold s1. apply TInv_req_upd; auto.
+Qed.
+
+Lemma finish_close_T h rest s beh :
+  Inv (CH h :: rest) s -> TInv (CH h :: rest) s -> TInv rest (finish_close s beh h).
+Proof.
+  intros I T. destruct (head_facts _ _ _ I) as (Hv & Hcl & Hd & Hx & Hn & Hnd).
+  unfold finish_close.
+  destruct (h_ty (hget s h)) eqn:Ty.
+  - apply deliver_close_T; auto.
+  - set (s1 := cancel_connect s beh h).
+    assert (S1 : Step (CH h :: rest) s s1) by (apply cancel_connect_step; auto).
+    assert (T1 : TInv (CH h :: rest) s1) by (apply cancel_connect_T; auto).
+    destruct (Step_valid_open _ _ _ _ S1 Hv Hd) as (V1 & D1).
+    set (s2 := flush_and_run s1 beh h).
+    assert (S2 : Step (CH h :: rest) s1 s2) by (apply flush_and_run_step; auto; apply S1).
+    assert (T2 : TInv (CH h :: rest) s2) by (apply flush_and_run_T; auto; apply S1).
+    destruct (Step_valid_open _ _ _ _ S2 V1 D1) as (V2 & D2).
+    assert (S3 : Step (CH h :: rest) s2 (drain_closing s2 beh h)) by (apply drain_closing_step; auto; apply S2).
+    apply deliver_close_T; [apply S3|]. apply drain_closing_T; auto. apply S2.
+  - assert (S2 : Step (CH h :: rest) s (flush_and_run s beh h)) by (apply flush_and_run_step; auto).
+    apply deliver_close_T; [apply S2|]. apply flush_and_run_T; auto.
+  - destruct (0 <? h_sigpend (hget s h)); [|apply deliver_close_T; auto].
+    apply TInv_push. apply TInv_emit. apply TInv_pop_ch with (h := h). exact T.
+  - apply deliver_close_T; auto.
+Qed.
+
+Lemma run_closing_T beh l : forall s, Inv l s -> TInv l s -> TInv [] (run_closing l s beh).
+Proof.
+  induction l as [|[h|h c] l IH]; intros s I T; cbn [run_closing]; [exact T|..].
+  - apply IH; [apply finish_close_inv; exact I|apply finish_close_T; auto].
+  - assert (Hv : hvalid s h = true) by (apply (j_valid _ _ I (CT h c)); left; reflexivity).
+    assert (I1 : Inv (CT h c :: l) (emit s (ETouch h))).
+    { apply Inv_emit; auto; try discriminate. intros h' [Ha|(r & Hr & _)]; discriminate. }
+    apply IH.
+    + apply fp_timer_closed_inv; [|exact Hv]. apply Inv_drop_ct with (h := h) (c := c). exact I1.
+    + apply fp_timer_closed_T; [apply TInv_emit; exact T|exact Hv].
+Qed.
+
+Lemma cstep_T s beh o : Inv [] s -> TInv [] s -> TInv [] (cstep s beh o).
+Proof.
+  intros I T. destruct o; cbn [cstep]; try (apply capi_T; assumption).
+  - (* req_cb *)
+    unfold req_cb. destruct (lookup r (owner s)) as [h|] eqn:Lr; [|exact T].
+    destruct (usable s h) eqn:U; [|exact T].
+    apply usable_valid in U. destruct U as [Hv Hc].
+    pose proof (j_h _ _ I h Hv) as K.
+    assert (Hd : h_closed (hget s h) = false) by (eapply HOK_not_closing; eauto).
+    destruct (opt_is (h_conn (hget s h)) r) eqn:E1.
+    + apply opt_is_true in E1.
+      assert (S1 : Step [] s (ccallback (upd_h s h (w_conn None)) beh (EReqCb r st false))).
+      { apply drop_req_step; auto.
+        - apply in_qreqs. auto.
+        - intros r'. rewrite !in_qreqs. cbn. intros [H|H]; [discriminate|auto]. }
+      assert (T1 : TInv [] (ccallback (upd_h s h (w_conn None)) beh (EReqCb r st false))).
+      { apply drop_req_T; auto.
+        - apply in_qreqs. auto.
+        - intros r'. rewrite !in_qreqs. cbn. intros [H|H]; [discriminate|auto]. }
+      destruct (Step_valid_open _ _ _ _ S1 Hv Hd) as (V1 & D1).
+      match goal with |- TInv _ (if ?c then _ else _) => destruct c end; [|exact T1].
+      apply flush_and_run_T; auto. apply S1.
+    + destruct (opt_is (h_shut (hget s h)) r) eqn:E2; [|exact T].
+      apply opt_is_true in E2. apply drop_req_T; auto.
+      * apply in_qreqs. auto.
+      * intros r'. rewrite !in_qreqs. cbn. intros [H|[H|[H|H]]]; auto. discriminate.
+  - (* batch *)
+    unfold batch.
+    match goal with |- TInv _ (if ?c then _ else _) => destruct c eqn:U end; [|exact T].
+    apply andb_prop in U. destruct U as [U _]. apply usable_valid in U. destruct U as [Hv Hc].
+    pose proof (j_h _ _ I h Hv) as K.
+    assert (Hd : h_closed (hget s h) = false) by (eapply HOK_not_closing; eauto).
+    destruct (h_cq (hget s h)) as [|p pq] eqn:Eq; [exact T|].
+    set (se := emit s (EIn (OBatch h))).
+    assert (Ie : Inv [] se) by (apply Inv_emit_op with (h := h); auto).
+    set (s0 := upd_h se h (w_cq [])).
+    assert (I0 : Inv [] s0).
+    { unfold s0. apply Inv_upd; auto. eapply HOK_frame; [apply (j_h _ _ Ie h Hv)|..]; auto.
+      - intros r. rewrite !in_qreqs. cbn. tauto.
+      - apply (k_led _ _ _ _ (j_h _ _ Ie h Hv)). }
+    assert (T0 : TInv [] s0) by (unfold s0; apply TInv_req_upd; auto; apply TInv_emit; exact T).
+    assert (V0 : hvalid s0 h = true) by (unfold s0; rewrite hvalid_upd; exact Hv).
+    assert (D0 : h_closed (hget s0 h) = false).
+    { unfold s0. rewrite hget_upd_same by exact Hv. exact Hd. }
+    assert (Ho : forall r st, In (r, st) (p :: pq) -> lookup r (owner s0) = Some h).
+    { intros r st H. change (owner s0) with (owner s).
+      apply (k_own _ _ _ _ K). apply in_qreqs. right. right. left. rewrite Eq.
+      apply in_map_iff. exists (r, st). auto. }
+    assert (S1 : Step [] s0 (run_cq (p :: pq) h s0 beh)) by (apply run_cq_step; auto).
+    assert (T1 : TInv [] (run_cq (p :: pq) h s0 beh)) by (apply run_cq_T; auto).
+    destruct (Step_valid_open _ _ _ _ S1 V0 D0) as (V1 & D1).
+    match goal with |- TInv _ (if ?c then _ else _) => destruct c end; [|exact T1].
+    apply drain_closing_T; auto. apply S1.
+  - (* handle callback *)
+    unfold h_cb. destruct (hvalid s h && negb (h_closed (hget s h))) eqn:U; [|exact T].
+    apply andb_prop in U. destruct U as [Hv Hd]. apply negb_true_iff in Hd.
+    apply ccallback_T; auto.
+    apply Inv_ext with (s := emit s (EHCb h)); auto. apply Inv_emit; auto; try discriminate.
+    intros h' [Ha|(r & Hr & _)] _; [|discriminate]. simpl in Ha. inversion Ha; subst. exact Hd.
+  - apply fp_stat_T. exact T.
+  - (* closing phase *)
+    assert (Ie : Inv [] (emit s (EIn OPhase))).
+    { apply Inv_emit; auto; try discriminate. intros h [Ha|(r & Hr & _)]; discriminate. }
+    apply run_closing_T.
+    + change (clq s) with (clq (emit s (EIn OPhase))). apply Inv_detach. exact Ie.
+    + apply TInv_keep with (dl := []) (s := s); auto.
+      * apply CFS_hs. reflexivity.
+      * intros h c H. simpl in *. rewrite app_nil_r. exact H.
+Qed.
+
+Lemma crun_T beh os : forall s, Inv [] s -> TInv [] s -> TInv [] (crun s os beh).
+Proof.
+  induction os as [|o os IH]; intros s I T; cbn [crun]; auto.
+  apply IH; [apply cstep_inv; exact I|apply cstep_T; auto].
+Qed.
+
+Theorem reachable_tinv os beh : TInv [] (crun cinit os beh).
+Proof. apply crun_T; [apply Inv_init|apply TInv_init]. Qed.
+
+(* the unconditional statement: nothing on the closing queue and no stat of h
+   in flight => a closing handle has had its close callback *)
+Theorem close_cb_eventually os beh h :
+  let s := final os beh in
+  clq s = [] -> hvalid s h = true -> h_closing (hget s h) = true ->
+  has_stat (h_ctxs (hget s h)) = false ->
+  In (ECloseCb h) (ctrace os beh).
+Proof.
+  intros s Hq Hv Hc Hs.
+  destruct (close_cb_eventually_partial os beh h Hq Hv Hc) as [H|(Ty & Ne)]; [exact H|].
+  exfalso. fold s in Ne. pose proof (reachable_tinv os beh h Hv) as X. fold s in X.
+  destruct (h_ctxs (hget s h)) as [|c l] eqn:Ec; [apply Ne; reflexivity|].
+  assert (Hin : In c (h_ctxs (hget s h))) by (rewrite Ec; left; reflexivity).
+  destruct (t_dead _ _ _ _ X (or_intror Hc) c Hin) as [H|H].
+  - unfold has_stat in Hs. simpl in Hs. rewrite H in Hs. discriminate.
+  - pose proof (t_ct _ _ _ _ X c Hin H) as HC. change (In (CT h (c_id c)) (clq s)) in HC. rewrite Hq in HC. exact HC.
 Qed.
